@@ -175,13 +175,22 @@ func genChurn(t *rapid.T, blocks []ck.BlockSpec, roleStory int) {
 	stories := rapid.IntRange(1, 5).Draw(t, "nstories")
 	for s := 0; s < stories; s++ {
 		c := rapid.IntRange(0, 2).Draw(t, "story_c")
-		switch rapid.SampledFrom([]string{"recreate", "recreate", "recreate", "samevalue", "empty", "prefixes", "destroy", "destroy", "multi", "roles", "roles", "serial"}).Draw(t, "story") {
+		kind := rapid.SampledFrom([]string{"recreate", "recreate", "recreate", "samevalue", "empty", "prefixes", "destroy", "destroy", "multi", "roles", "roles", "serial"}).Draw(t, "story")
+		if s == 0 && rapid.Bool().Draw(t, "story0") {
+			kind = "recreate"
+		}
+		switch kind {
 		case "recreate": // put, delete, put again (same or other value), possibly inside one block
 			k := ck.GenStorageKey(t, "rk")
 			v := ck.GenStorageVal(t, "rv")
 			i := at("ri", 0)
 			j := at("rj", i)
 			l := at("rl", j)
+			if n >= 3 && rapid.IntRange(0, 3).Draw(t, "rspread") != 0 { // three different blocks: visible in per-block snapshots
+				i = rapid.IntRange(0, n-3).Draw(t, "ri3")
+				j = rapid.IntRange(i+1, n-2).Draw(t, "rj3")
+				l = rapid.IntRange(j+1, n-1).Draw(t, "rl3")
+			}
 			add(i, put(c, k, v))
 			add(j, del(c, k))
 			if rapid.Bool().Draw(t, "rsame") {
@@ -599,12 +608,18 @@ func buildScript(b *ck.Builder, sn *snap, s ScriptSel, p2psig bool) []byte {
 		return util.Uint160{}, false
 	}
 	party := func(p int) util.Uint160 { return b.PartyHash(mod(p, ck.NParties)) }
+	dep := func(i int) util.Uint160 {
+		if len(b.Deployed) == 0 { // genesis: nothing deployed yet, the call faults (identically on both sides)
+			return util.Uint160{1, 2, 3}
+		}
+		return b.Deployed[mod(i, len(b.Deployed))].Hash
+	}
 	switch s.Kind {
 	case "kget", "kfind":
 		key := sn.resolve(s.Key)
 		h, ok := deployedByID(idOf(key))
 		if !ok {
-			h = b.Deployed[mod(s.C, len(b.Deployed))].Hash
+			h = dep(s.C)
 		}
 		tail := key[4:]
 		if s.Kind == "kget" {
@@ -643,10 +658,9 @@ func buildScript(b *ck.Builder, sn *snap, s ScriptSel, p2psig bool) []byte {
 		}
 	case "mgmt":
 		mg := nativehashes.ContractManagement
-		d := b.Deployed[mod(s.C, len(b.Deployed))]
-		call(mg, "getContract", d.Hash)
+		call(mg, "getContract", dep(s.C))
 		call(mg, "getContractById", int64(mod(s.C, 6)+1))
-		call(mg, "hasMethod", d.Hash, "put", int64(2))
+		call(mg, "hasMethod", dep(s.C), "put", int64(2))
 		call(mg, "getMinimumDeploymentFee")
 		call(mg, "getContract", nativehashes.PolicyContract)
 	default: // "bundle": chainkit's full getter scripts
@@ -711,6 +725,7 @@ func plan(c Case, nblocks int) ([]planned, map[uint32]bool) {
 const (
 	kfHardforkHeight = "historic-vm-at-hardfork-height"
 	kfBelowMTB       = "historic-vm-gc-node-below-mtb"
+	kfGCInactive     = "historic-vm-gc-node-inactive-nodes"
 )
 
 type env struct {
@@ -954,7 +969,21 @@ func (e *env) moment(n *ck.Node, p planned) error {
 			if err := e.stateReads(n, sn, where, false); err != nil {
 				return err
 			}
-			if err := e.historicCalls(n, sn, cur, where, true); err != nil {
+			strict := true
+			if e.c.Node.RemoveUntraceable && len(e.recs[h]) > 0 {
+				// Listed findings about GetTestHistoricVM on RemoveUntraceableBlocks nodes: with them listed the
+				// clause degrades to "an error or the same data" for the affected shapes.
+				if h < cur && vt.Known(kfGCInactive) {
+					strict = false
+				}
+				if cur < n.BC.GetMaxTraceableBlocks() && vt.Known(kfBelowMTB) {
+					strict = false
+				}
+				if !strict {
+					e.o.Excluded()
+				}
+			}
+			if err := e.historicCalls(n, sn, cur, where, strict); err != nil {
 				return err
 			}
 		}
